@@ -103,7 +103,9 @@ theorem applyS_fields {n n' : Node} {expect : Nat} {tb : String} {st : Nat} {k :
         obtain ⟨x, _, rfl⟩ := h
         simp [setT]
     · split at h
-      · cases h; simp [setB]
+      · split at h
+        · cases h; simp [setB]
+        · cases h
       · cases h
 
 theorem applyEvents_fields {n n' : Node} {expect : Nat} {evs : List Ev}
